@@ -64,7 +64,7 @@ TraceInit ==
     /\ ln = ExpectedLine(C, text, pos)
     /\ st = "run"
 
-Obs == Verdict(C, text, pos, Rec[k].res, Rec[k].efile, Rec[k].eline)
+Obs == Verdict(C, ln, Rec[k].res, Rec[k].efile, Rec[k].eline)
 
 TraceBaseRejected ==
     /\ st = "run" /\ ~Rec[k].base_ok
@@ -91,13 +91,18 @@ TraceNext == TraceBaseRejected \/ TraceConforms \/ TraceReject
 
 TraceSpec == TraceInit /\ [][TraceNext]_tvars
 
-\* evaluated in every state of every validated record
+\* Evaluated in every state of every validated record.  text, pos and ln never change after TraceInit, so the
+\* (expensive, character-by-character) re-derivations are evaluated in the first state of each record only.
 TraceInv ==
     /\ st \in {"run", "ok", "fail", "basebad"}
-    /\ pos \in 1..Len(text)
-    /\ ln = LineOf(text, OffendingPos(C, text, pos))
-    /\ ln >= LineOf(text, pos) /\ ln <= 1 + NLs(text)
-    /\ LineOf(text, pos) = 1 + CountNL(text, pos - 1)
+    /\ pos \in 1..Len(text) /\ ln >= 1
+    /\ st = "run" =>
+          LET op == OffendingPos(C, text, pos)
+              lp == LineOf(text, pos)
+              lo == IF op = pos THEN lp ELSE LineOf(text, op)
+          IN /\ ln = lo                                   \* the expectation is SyltLex's text-derived line
+             /\ lp = 1 + CountNL(text, pos - 1)           \* which agrees with counting newlines one by one
+             /\ lo >= lp
     /\ st = "ok" => (Rec[k].efile = PathOf(Rec[k].file) /\ Rec[k].eline = ln /\ Rec[k].res = "err")
 
 TraceTotal == st = "run" => ENABLED TraceNext
